@@ -336,8 +336,6 @@ fn param_sweep(rng: &mut Rng, vocab: &[String]) -> String {
     } else {
         NUMBERS[rng.below(NUMBERS.len())].to_string()
     };
-    // on its own line half of the time, so that a fatal error of the assignment does not take the
-    // battery with it
     let mut s = format!("{cs}={num} ");
     if rng.chance(1, 2) {
         s = format!("\\global{s}");
